@@ -158,3 +158,20 @@ func DiffKeys(a, b map[string]string) []string {
 	sort.Strings(out)
 	return out
 }
+
+// TunBytes returns the bytes the tun writer hands to the local interface for a
+// frame taken from the tun device's SendFrame queue. It mirrors the two lines
+// of tun.(*Device).tunWriter (MessageDataWithOffset(10), written from offset 10).
+func TunBytes(f frame.Frame) ([]byte, error) {
+	d, err := f.MessageDataWithOffset(10)
+	if err != nil {
+		return nil, err
+	}
+	return d[10:], nil
+}
+
+// TunBytesOrNil is TunBytes without the error.
+func TunBytesOrNil(f frame.Frame) []byte {
+	b, _ := TunBytes(f)
+	return b
+}
